@@ -491,8 +491,32 @@ impl<T> Matrix<T> {
     {
         let shape = shape.into().try_to_axis_shape(self.order)?;
         let size = Self::check_size(shape.size())?;
-        self.shape = shape;
-        self.data.resize_with(size, T::default);
+        let old_size = self.size();
+        if size <= old_size {
+            // `truncate` updates the length before dropping the tail,
+            // so the shape never describes more elements than exist.
+            self.shape = shape;
+            self.data.truncate(size);
+        } else {
+            // If `T::default` panics, fall back to the old length so that
+            // the (still old) shape keeps matching the data.
+            struct Guard<'a, T> {
+                data: &'a mut Vec<T>,
+                size: usize,
+            }
+            impl<T> Drop for Guard<'_, T> {
+                fn drop(&mut self) {
+                    self.data.truncate(self.size);
+                }
+            }
+            let guard = Guard {
+                data: &mut self.data,
+                size: old_size,
+            };
+            guard.data.resize_with(size, T::default);
+            std::mem::forget(guard);
+            self.shape = shape;
+        }
         Ok(self)
     }
 
